@@ -386,6 +386,10 @@ def corpus():
                                      h(-3.0), "0x1.9986ba874a620p-1"]],
            "xs": [], "qs": [h(1.0), h(0.0), h(0.5), h(math.nextafter(1.0, 0.0))]}
     yield {"kind": "profile", "values": [1, 2, 2, 3, None, 10, 7, 7, 7, 0], "probes": [h(x) for x in (0, 1, 2, 5, 7, 10)]}
+    # F-C14-4: bounds kept as numpy.float32 after a bulk load of a float32 array (comparisons happened in float32)
+    yield {"kind": "hist", "prog": [["new", 0, 16], ["bulk", 0, ["-0x1.b3d0b00000000p+2"], "float32"], ["bulk", 0, ["-0x1.fdfa180000000p+7"], "float32"]],
+           "xs": ["-0x1.fdfa180000001p+7", "-0x1.fdfa180000000p+7", "-0x1.b3d0b00000000p+2", "-0x1.b3d0affffffffp+2", "0x1.45df0e8e74735p+1"],
+           "qs": [h(q) for q in (-0.25, 0, 0.5, 0.875, 1)]}
     # query / exact-hit update / query on one object (round-2 seeded change: a cached total went stale)
     yield {"kind": "hist", "prog": [["new", 0, 4]] + [["upd", 0, h(v), 1] for v in (1, 2, 3, 4, 5)] + [["upd", 0, h(5), 5]],
            "warm_at": 6, "warm": [["count_at", 0, h(3)], ["quantile", 0, h(0.5)]],
